@@ -32,6 +32,34 @@ Definition py_nth {A} (l : list A) (i : Z) : option A := if i <? 0 then nthz l (
 Definition count_if {A} (p : A -> bool) (l : list A) : Z := zlen (filter p l).
 Definition len_is {A} (n : Z) (l : list A) : bool := zlen l =? n.
 
+(* Python int(text) on a text without blanks: optional sign, then digits; None = ValueError *)
+Definition digit_of (c : ascii) : option Z :=
+  let n := Z.of_nat (nat_of_ascii c) in if (48 <=? n) && (n <=? 57) then Some (n - 48) else None.
+Fixpoint digits (s : string) (acc : Z) : option Z :=
+  match s with
+  | EmptyString => Some acc
+  | String c t => match digit_of c with Some d => digits t (10 * acc + d) | None => None end
+  end.
+Definition z_of_string (s : string) : option Z :=
+  match s with
+  | EmptyString => None
+  | String c t =>
+      if Ascii.eqb c "-"%char then match t with EmptyString => None | _ => option_map Z.opp (digits t 0) end
+      else if Ascii.eqb c "+"%char then match t with EmptyString => None | _ => digits t 0 end
+      else digits s 0
+  end.
+(* text.split(c) *)
+Fixpoint split_on (c : ascii) (s : string) : list string :=
+  match s with
+  | EmptyString => [EmptyString]
+  | String a t =>
+      let r := split_on c t in
+      if Ascii.eqb a c then EmptyString :: r
+      else match r with h :: tl => String a h :: tl | [] => [String a EmptyString] end
+  end.
+Fixpoint consecutive {A} (l : list A) : list (A * A) :=
+  match l with a :: ((b :: _) as r) => (a, b) :: consecutive r | _ => [] end.
+
 (* attribute values (only the geogram format carries them) *)
 Inductive aty := TyBool | TyInt | TyFloat | TyComplex | TyString.
 Definition aty_eqb (a b : aty) : bool :=
@@ -151,8 +179,27 @@ Definition print_obj (sw : switches) (m : mesh) : option (list line) :=
   | Some el => Some (map obj_vertex_line (mV m) ++ map obj_edge_line el ++ map obj_face_line (mF m))
   end.
 
-(* parse_vertex: "12" -> 11 (the v/vt/vn forms are outside this model) *)
-Definition obj_parse_vertex (t : tok) : option Z := option_map obj_imp_vid (py_int t).
+(* parse_vertex: "12" -> 11, "12/3/7" -> 11 (the texture / normal indices must be integers when present; the
+   uv_coords / normals attributes they fill are not modelled, nor the IndexError of a dangling reference) *)
+Definition obj_parse_vertex (t : tok) : option Z :=
+  match t with
+  | TInt z => Some (obj_imp_vid z)
+  | TWord s =>
+      let vals := split_on "/"%char s in
+      match vals with
+      | v0 :: rest =>
+          match z_of_string v0 with
+          | None => None
+          | Some z =>
+              let ok1 := match rest with t1 :: _ => if String.eqb t1 "" then true else match z_of_string t1 with Some _ => true | None => false end
+                                    | [] => true end in
+              let ok2 := match rest with _ :: t2 :: _ => match z_of_string t2 with Some _ => true | None => false end | _ => true end in
+              if ok1 && ok2 then Some (obj_imp_vid z) else None
+          end
+      | [] => None
+      end
+  | _ => None
+  end.
 
 Definition obj_step (l : line) (acc : list (list F) * list (list Z) * list (list Z))
   : option (list (list F) * list (list Z) * list (list Z)) :=
@@ -172,10 +219,11 @@ Definition obj_step (l : line) (acc : list (list F) * list (list Z) * list (list
       else if is_word t0 obj_imp_kw_f then
         option_map (fun f => (V, E, f :: Fs)) (omap obj_parse_vertex (skipn 1 l))
       else if is_word t0 obj_imp_kw_l then
-        match omap (fun p => match nthz l p with Some t => option_map obj_imp_edge (py_int t) | None => None end) obj_imp_edge_pos with
-        | Some [a; b] => Some (V, keyify2 a b :: E, Fs)
-        | _ => None
-        end
+        (* a polyline: for i in range(1, len(toks)-1): the edge (toks[i], toks[i+1]) *)
+        let args := skipn 1 l in
+        if (length args <? 2)%nat then Some acc
+        else option_map (fun idx => (V, map (fun p => keyify2 (fst p) (snd p)) (consecutive idx) ++ E, Fs))
+                        (omap (fun t => option_map obj_imp_edge (py_int t)) args)
       else Some acc
   end.
 
@@ -224,9 +272,15 @@ Fixpoint off_faces (ls : list line) : option (list (list Z) * list (list Z)) :=
       end
   end.
 
+(* the lines are taken after removal of the # comments (done by the tokeniser) and of the empty lines *)
 Definition parse_off (ls : list line) : option raw :=
-  match filter (fun l => negb (isnil l)) ls with
-  | (t0 :: _) :: cl :: d2 =>
+  match (match filter (fun l => negb (isnil l)) ls with
+         | (t0 :: rest0) :: d1 =>
+             if off_imp_counts_inline (zlen (t0 :: rest0)) then Some (t0, slice (t0 :: rest0) off_imp_counts_inline_from (zlen (t0 :: rest0)), d1)
+             else match d1 with cl :: d2 => Some (t0, cl, d2) | [] => None end
+         | _ => None
+         end) with
+  | Some (t0, cl, d2) =>
       if is_word t0 off_header then
         match omap py_int cl with
         | None => None
@@ -251,7 +305,7 @@ Definition parse_off (ls : list line) : option raw :=
             else None
         end
       else None
-  | _ => None
+  | None => None
   end.
 Definition vocab_off (m : mesh) : raw := raw_of (map v3 (mV m)) [] (mF m) [].
 (* faces of fewer than 3 vertices are outside what an OFF file gives back as faces:
